@@ -145,6 +145,14 @@ func permissionSlice(c *fw.Ctx) {
 	mk("secret", false, 0000, false)
 	mk("rofile", false, 0444, false)
 
+	// the unprivileged user must be able to execute the binary wherever the
+	// harness was built: run a world-readable copy from the sandbox
+	if b, err := ioutil.ReadFile(bin); err == nil {
+		cp := filepath.Join(base, "davserver-copy")
+		if ioutil.WriteFile(cp, b, 0755) == nil && os.Chmod(cp, 0755) == nil {
+			bin = cp
+		}
+	}
 	cmd := exec.Command(bin, root)
 	cmd.SysProcAttr = &syscall.SysProcAttr{Credential: &syscall.Credential{Uid: 65534, Gid: 65534}}
 	out, _ := cmd.StdoutPipe()
